@@ -2233,11 +2233,14 @@ class MethodSelectorHandler(Handler):
         self.method_description_name = "method-description"
         self.within_description = False
         self.current_method_option: Optional[str] = None
-        self.pending_diagnostics: List[Diagnostic] = []
+        # Diagnostics which only apply if the page turns out to have a method-selector, each
+        # with the file it was found in
+        self.pending_diagnostics: List[Tuple[FileId, Diagnostic]] = []
         self.page_has_method_selector = False
 
-    def __add_pending_diagnostics(self, fileid: FileId) -> None:
-        self.context.diagnostics[fileid].extend(self.pending_diagnostics)
+    def __add_pending_diagnostics(self) -> None:
+        for fileid, diagnostic in self.pending_diagnostics:
+            self.context.diagnostics[fileid].append(diagnostic)
 
     def enter_page(self, fileid_stack: FileIdStack, page: Page) -> None:
         self.page_has_method_selector = False
@@ -2250,9 +2253,12 @@ class MethodSelectorHandler(Handler):
             self.current_method_option != "driver" and not self.within_description
         ):
             self.pending_diagnostics.append(
-                UnexpectedDirectiveOrder(
-                    'tabs-selector can only be used in the method-description of the "driver" option when page has method-selector.',
-                    node.start[0],
+                (
+                    fileid_stack.current,
+                    UnexpectedDirectiveOrder(
+                        'tabs-selector can only be used in the method-description of the "driver" option when page has method-selector.',
+                        node.start[0],
+                    ),
                 )
             )
             return
@@ -2282,7 +2288,7 @@ class MethodSelectorHandler(Handler):
     def exit_page(self, fileid_stack: FileIdStack, page: Page) -> None:
         if self.page_has_method_selector:
             page.ast.options["has_method_selector"] = True
-            self.__add_pending_diagnostics(fileid_stack.current)
+            self.__add_pending_diagnostics()
         self.pending_diagnostics = []
 
 
